@@ -282,7 +282,7 @@ def check(run):
     binpath = T.build(run, ["theories/Tenant/Props.vo", "theories/Tenant/Run.vo"], "C28.v")
     if binpath is None:
         return
-    n = 150 if run.tier == "quick" else 3000
+    n = 150 if run.tier == "quick" else 1200
     seqs = [gen_seq(run.rng, run.tier) for _ in range(n)]
     answers = harness.run_jsonl(binpath, [to_harness(s) for s in seqs], timeout=3000)
     model = None
